@@ -82,6 +82,15 @@ CHECKS["C11"] = dict(
          "Known finding: NaN / Infinity tokens are not RFC 8259 JSON.",
     ref="6/C11")
 
+CHECKS["C12"] = dict(
+    technique="Coq proof (parse (build parts) = parts for the '#'-free pattern and prefix-before-version construction, for every version string; resolve never errors) + source facts (pattern literal, construction order, external stub) + exhaustive comparison of the pattern's functional description with Python's re on all short strings + real-function quadruples and code evolutions",
+    text="Theorems over Codec/QName.v: for any cluster without '#', dotted-identifier module/function names and ANY version string (':' '#' '::' included) the qualified name splits back into exactly its parts; resolving a stored reference against any registry never errors and yields the local function when the version is current, an external reference otherwise; "
+         "refutations for the greedy pattern, for prefix-after-version and for the default-cluster assertion; the format is ambiguous without '#'-free clusters. The source's pattern literal, construction order and external stub are extracted every run. "
+         "Implementation: parse_qualified_name vs the functional description on all strings up to length 5/6 over {a . : # @}; random admissible quadruples through real decorated functions, a filesystem store and all listing APIs; "
+         "caller/callee evolutions (re-version, remove, rename, re-cluster, body edit, zero-parameter callee) in default and named clusters.",
+    note="That Python's re computes what parse_split / parse_greedy say is validated (exhaustively on short strings), not proved. 'Entries stored under it can be found again' is carried by the C05 storage refinement and checked here on the real store.",
+    ref="6/C12")
+
 NOT_YET = {}
 
 
